@@ -50,9 +50,9 @@ def chain_rows(rng):
     if rng.random() < 0.5 and len(names) > 1:
         prms['EXCLUDE_FOR_BASE_HEIGHT_CALC'] = [rng.choice(names)]
     if rng.random() < 0.5:
-        prms['BASE_LVL_HEIGHT_PERC'] = rng.choice([0, 5, 50, 95, 100])
+        prms['BASE_LVL_HEIGHT_PERC'] = rng.choice([0, 5, 50, 95, 100, 2.5, 12.5, 0.9, 99.5])
     if rng.random() < 0.4:
-        prms['BASE_LVL_LOOKBACK_PERC'] = rng.choice([10, 40, 70])
+        prms['BASE_LVL_LOOKBACK_PERC'] = rng.choice([10, 40, 70, 12.5, 33.3, 66.6])
     return rows, prms
 
 
@@ -84,8 +84,8 @@ def split_rows(rng):
     elif order == 'shuffled':
         rng.shuffle(rows)
     prms = {'MIN_SEP_VALS': [rng.choice([100, 250, 300]), 1000],
-            'BASE_LVL_LOOKBACK_PERC': rng.choice([100, 100, 10, 40, 70]),
-            'BASE_LVL_HEIGHT_PERC': rng.choice([0, 5, 5, 50, 95, 100])}
+            'BASE_LVL_LOOKBACK_PERC': rng.choice([100, 100, 10, 40, 70, 12.5, 33.3, 7.9, 99.9]),
+            'BASE_LVL_HEIGHT_PERC': rng.choice([0, 5, 5, 50, 95, 100, 0.9, 12.5, 49.9, 99.5])}
     if rng.random() < 0.3:
         prms['LAYERING_PRMS'] = {'min_okta_to_split': rng.choice([0, 1, 2]),
                                  'gmm_kwargs': {'scores': rng.choice(['BIC', 'AIC']),
@@ -100,6 +100,12 @@ def crop_rows(rng):
     """Hits on both sides of, and exactly at, MSA + buffer; first, second, third and VV types."""
     msa = rng.choice([0, 1000, 2500, 5000])
     buf = rng.choice([0, 100, 1500])
+    inexact = rng.random() < 0.3
+    if inexact:
+        # settings that are not exactly representable (metric values converted to ft): the limit is the rounded
+        # binary64 sum, and hits sit on it and one ulp on either side
+        msa = rng.choice([800 / 0.3048, 2624.672, 1000.1, 3280.84, 0.1, 4921.26])
+        buf = rng.choice([1500, 1000.5, 0.3, 328.084, 1e-3, 500 / 0.3048])
     lim = msa + buf
     n = rng.choice([8, 20, 40])
     rows = []
@@ -118,9 +124,12 @@ def crop_rows(rng):
         elif kind < 0.3:
             rows.append((c, t, float(rng.choice([lim, lim + 1, max(0, lim - 1), lim + 5000])), -1))
         else:
-            hs = sorted({float(rng.choice([max(0, lim - 800), max(0, lim - 1), lim, lim + 1, lim + 300, lim + 4000,
-                                           max(0, msa - 200), msa, msa + 1]))
-                         for _ in range(rng.choice([1, 1, 2, 3]))})
+            cands = [max(0, lim - 800), max(0, lim - 1), lim, lim + 1, lim + 300, lim + 4000,
+                     max(0, msa - 200), msa, msa + 1]
+            if inexact:
+                cands += [lim, math.nextafter(lim, math.inf), math.nextafter(lim, -math.inf),
+                          math.nextafter(math.nextafter(lim, math.inf), math.inf)] * 2
+            hs = sorted({float(rng.choice(cands)) for _ in range(rng.choice([1, 1, 2, 3]))})
             for k, h in enumerate(hs):
                 rows.append((c, t, h, k + 1))
     prms = {'MSA': msa, 'MSA_HIT_BUFFER': buf, 'MAX_HITS_OKTA0': rng.choice([0, 1, 3, 5])}
